@@ -476,3 +476,64 @@ func short(s string) string {
 }
 
 func sprintf(f string, a ...any) string { return fmt.Sprintf(f, a...) }
+
+// Inline expands, inside term t, calls of module helper functions that consist of a single return statement
+// (the typical product of an "extract helper" refactoring) by the returned expression with the arguments substituted.
+// extract:i(call:f(args)) becomes result i, call:f(args) the single result.
+func (c *Ctx) Inline(t *core.Term, depth int) *core.Term {
+	if t == nil || depth == 0 {
+		return t
+	}
+	var rec func(x *core.Term, d int) *core.Term
+	seen := map[*core.Term]*core.Term{}
+	rec = func(x *core.Term, d int) *core.Term {
+		if x == nil || d > 40 {
+			return x
+		}
+		if r, ok := seen[x]; ok {
+			return r
+		}
+		idx := -1
+		call := x
+		if x.Kind == "extract" && len(x.Args) == 1 && x.Args[0].Kind == "call" {
+			call = x.Args[0]
+			fmt.Sscanf(x.Name, "%d", &idx)
+		}
+		if call.Kind == "call" && isModuleCallee(call.Name) {
+			if cv, ok := call.V.(*ssa.Call); ok {
+				if fn := cv.Call.StaticCallee(); fn != nil && fn.Blocks != nil && !strings.Contains(call.Name, "logger.") {
+					rets := core.Returns(fn)
+					if len(rets) == 1 && len(fn.Blocks) <= 3 {
+						k := idx
+						if k < 0 && len(rets[0].Results) == 1 {
+							k = 0
+						}
+						if k >= 0 && k < len(rets[0].Results) {
+							sub := map[string]*core.Term{}
+							for i, p := range fn.Params {
+								if i < len(call.Args) {
+									sub[p.Name()] = rec(call.Args[i], d+1)
+								}
+							}
+							body := c.O.Of(rets[0].Results[k])
+							out := core.Subst(body, sub)
+							res := c.Inline(out, depth-1)
+							seen[x] = res
+							return res
+						}
+					}
+				}
+			}
+		}
+		n := &core.Term{Kind: x.Kind, Name: x.Name, V: x.V, Type: x.Type}
+		seen[x] = n
+		for _, a := range x.Args {
+			n.Args = append(n.Args, rec(a, d+1))
+		}
+		return n
+	}
+	return rec(t, 0)
+}
+
+// OfInl is Origins.Of followed by Inline (depth 2).
+func (c *Ctx) OfInl(v ssa.Value) *core.Term { return c.Inline(c.O.Of(v), 2) }
